@@ -1,6 +1,6 @@
 """C01, inverse-CDF samplers (Cauchy, Pareto, Weibull, Gumbel, Frechet, Triangular; f32 and f64): spec/Quantile.tla
 states the law of a one-word sampler as a ticket count, spec/QuantileTable.tla holds the documented CDFs at 9 anchors
-(2^-20 ... 1-2^-20) for 48 dyadic parameter points; TLC prints the cases (MCQuantile), `rdv quant-drive` counts
+(2^-20 ... 1-2^-20) for 52 dyadic parameter points; TLC prints the cases (MCQuantile), `rdv quant-drive` counts
 {w : S(w) <= x} on the real samplers (exact 2^24 sweep for f32, witnessed bisection for f64) and TraceQuantile.tla
 compares every count with the table and checks the monotonicity samples and the one-word consumption."""
 import json
